@@ -68,6 +68,15 @@ class Tables:
     def __init__(self, model, f) -> None:
         self.model, self.f = model, f
 
+    def _nt_row(self, v: ast.AST) -> ast.AST:
+        """`Row(ECALL, 0)` for a typing.NamedTuple class Row (positional constants only) is the tuple `(ECALL, 0)`"""
+        if isinstance(v, ast.Call) and isinstance(v.func, ast.Name) and not v.keywords and not any(isinstance(a, ast.Starred) for a in v.args):
+            c_ = self.model.resolve_name(self.f.module, v.func.id)
+            spec = _namedtuple_fields(self.model)[0].get(getattr(c_, "qname", None)) if c_ is not None else None
+            if spec is not None and len(v.args) == len(spec[0]):
+                return ast.copy_location(ast.Tuple(elts=list(v.args), ctx=ast.Load()), v)
+        return v
+
     def rows(self, e: ast.AST, allow_dynamic_values: bool = False) -> Optional[list]:
         e0 = e
         if isinstance(e, ast.Attribute) and isinstance(e.value, ast.Name) and self.f.cls is not None:
@@ -109,9 +118,10 @@ class Tables:
         if isinstance(e, ast.Dict):
             if not e.keys or len(e.keys) > MAX_ROWS or any(k is None or not _const_key(k) for k in e.keys):
                 return None
-            if not allow_dynamic_values and not all(_row_ok(v) for v in e.values):
+            vals = [self._nt_row(v) for v in e.values]
+            if not allow_dynamic_values and not all(_row_ok(v) for v in vals):
                 return None
-            return list(zip(e.keys, e.values))
+            return list(zip(e.keys, vals))
         if isinstance(e, (ast.Tuple, ast.List)) and e is not e0:
             if not e.elts or len(e.elts) > MAX_ROWS or not all(_row_ok(v) for v in e.elts):
                 return None
@@ -694,6 +704,34 @@ class _Stmt:
             if isinstance(s, ast.AnnAssign) and s.value is not None and (self.t.f.name != "__init__" or _scalar_annotation(s.annotation)):
                 s = ast.copy_location(ast.Assign(targets=[s.target], value=s.value, lineno=s.lineno), s)
                 self.changed = True
+            # x = T.get(k); if x is not None: S   ->   if k in T: S[x := T[k]]      (T a constant table, x used nowhere else)
+            if isinstance(s, ast.Assign) and len(s.targets) == 1 and isinstance(s.targets[0], ast.Name) and isinstance(s.value, ast.Call) \
+                    and isinstance(s.value.func, ast.Attribute) and s.value.func.attr == "get" and len(s.value.args) == 1 and not s.value.keywords \
+                    and _simple_key(s.value.args[0]) and i + 1 < len(stmts) and isinstance(stmts[i + 1], ast.If) and not stmts[i + 1].orelse:
+                xn = s.targets[0].id
+                nxt = stmts[i + 1]
+                t_ = nxt.test
+                is_test = isinstance(t_, ast.Compare) and len(t_.ops) == 1 and isinstance(t_.ops[0], ast.IsNot) and isinstance(t_.left, ast.Name) \
+                    and t_.left.id == xn and isinstance(t_.comparators[0], ast.Constant) and t_.comparators[0].value is None
+                rows_ = self.t.rows(s.value.func.value) if is_test else None
+                used_elsewhere = any(isinstance(n_, ast.Name) and n_.id == xn for st_ in stmts[:i] + stmts[i + 2:] for n_ in ast.walk(st_)) or \
+                    sum(1 for n_ in ast.walk(self.t.f.node) if isinstance(n_, ast.Name) and n_.id == xn and isinstance(n_.ctx, ast.Store)) != 1
+                stored_in_body = any(isinstance(n_, ast.Name) and n_.id == xn and isinstance(n_.ctx, ast.Store) for st_ in nxt.body for n_ in ast.walk(st_))
+                if isinstance(rows_, list) and not used_elsewhere and not stored_in_body:
+                    look_ = ast.Subscript(value=copy.deepcopy(s.value.func.value), slice=copy.deepcopy(s.value.args[0]), ctx=ast.Load())
+
+                    class _RX(ast.NodeTransformer):
+                        def visit_Name(self, n_):
+                            if n_.id == xn and isinstance(n_.ctx, ast.Load):
+                                return ast.copy_location(copy.deepcopy(look_), n_)
+                            return n_
+                    new_if = ast.copy_location(ast.If(test=ast.Compare(left=copy.deepcopy(s.value.args[0]), ops=[ast.In()],
+                                                                      comparators=[copy.deepcopy(s.value.func.value)]),
+                                                      body=[_RX().visit(copy.deepcopy(st_)) for st_ in nxt.body], orelse=[]), nxt)
+                    ast.fix_missing_locations(new_if)
+                    self.changed = True
+                    stmts = stmts[:i] + [new_if] + stmts[i + 2:]
+                    continue
             # a, b = (X1, Y1) if c else (X2, Y2)  ->  a, b = (X1 if c else X2), (Y1 if c else Y2)     (c a plain name / constant test)
             if isinstance(s, ast.Assign) and len(s.targets) == 1 and isinstance(s.targets[0], ast.Tuple) and isinstance(s.value, ast.IfExp) \
                     and isinstance(s.value.body, ast.Tuple) and isinstance(s.value.orelse, ast.Tuple) \
